@@ -319,6 +319,7 @@ func (st *sortTable) boxFun(t types.Type) (box, unbox string) {
 			fmt.Sprintf("(declare-fun %s (%s) Int)", box, s),
 			fmt.Sprintf("(declare-fun %s (Int) %s)", unbox, s),
 			fmt.Sprintf("(assert (forall ((x %s)) (! (and (= (%s (%s x)) x) (= (dyntype (%s x)) %d) (> (%s x) 0)) :pattern ((%s x)))))", s, unbox, box, box, id, box, box),
+			fmt.Sprintf("(assert (forall ((i Int)) (! (=> (and (distinct i 0) (= (dyntype i) %d)) (= (%s (%s i)) i)) :pattern ((%s i)))))", id, box, unbox, unbox),
 		)
 	}
 	return
